@@ -117,6 +117,8 @@ TRANSPARENT = [
     ('result::Result::<T, E>::unwrap_or', 0, 'unwrap_or'),
     ("self_referential::NodeRef::<'a, N>::as_ref", 0, 'as_ref'),
     ("slice::iter::Iter::<'a, T>::as_slice", 0, 'as_ref'),
+    ('core::mem::take', 0, 'take'),
+    ('mem::take', 0, 'take'),
     ('ops::index::Index::index', 0, 'index'),
     ('ops::index::IndexMut::index_mut', 0, 'index'),
     ('ops::index::Index<I>>::index', 0, 'index'),
